@@ -55,10 +55,10 @@ BUILT = {
    tech="exhaustive enumeration of all mid-price paths with moves in {-2..2} ticks up to a length bound (harness re-quotes a deep market), crossed with parameter grid and scripted per-trader decision draws; oracle recomputes M; mirrored-run differential",
    text="The harness imposes every mid-price path over moves {-2,-1,0,+1,+2} ticks up to the stated length and scripts the generator of the judged update (default, all-zero, all-ones, mid, and with order ratio 0 every combination of {0, p-eps, p+eps, 1-eps} per trader). M is recomputed from observed mids; at saturation exactly one market (and limit) order per trader on the side of sign(M), nothing at M = 0, action iff draw < |p| otherwise; the same script on the mirrored path must give the mirrored order flow.",
    note="Trusted: the documented recurrence for M; lognormal price offsets are only checked through the mirror differential."),
- "C09": dict(cat="exploration", engine="c09", ref="§3 C09",
-   tech="bounded-exhaustive cross product of a configuration grid with every enumerated nondeterminism dimension (repeat in-process, 3 child processes, both progress-bar branches, hand-written loop with recording generator, play-back of the recorded word stream); digests must agree",
-   text="Every point of a finite grid (7 derive-macro agent compositions incl. a nested set x {Env, MarketEnv<2>} x seeds x step counts x tick {1,2,5} x step size {100,10^6}) is run by the library runner twice in-process, in three fresh OS processes (progress bar off/on/off), by a hand-written update/step loop around a recording Xoroshiro128**, and by the same loop fed the recorded words back; all complete-output digests must agree and distinct seeds must give distinct outputs. Exhaustive over the grid and the enumerated dimensions, but seeds are an unbounded domain, hence claimed as exploration.",
-   note="Not model checking: the seed domain is sampled by a finite list; the check is the uncontrolled-nondeterminism gate the other checks rely on."),
+ "C09": dict(cat="model_checking", engine="c09 + scriptrng", ref="§3 C09, §10.9",
+   tech="controlled-generator exploration of the real simulator: every generator stream within a deviation bound (default stream with <=d extreme answers among the first N draws of a round, all 14 agent compositions) executed twice in-process and once in a fresh OS process, outputs bit-compared; exhaustive run-length sweep (every step count 0..N, both progress-bar branches of the library runners vs the hand-written loop); plus the seed x parameter grid crossed with every enumerated nondeterminism dimension (repeat, 3 child processes, record / play-back of the generator words)",
+   text="The simulator is generic over RngCore, so 'seed' is replaced by 'generator stream' and the stream is owned by the harness. (a) For all 14 derive-macro agent compositions (single- and two-asset, ticks 1,2) and each of 4 rounds, every stream that departs from the default stream in at most d answers (extreme words: 0, all-ones, sign- and threshold-adjacent) among the first N draws of that round is run three times (twice here, once in a fresh process with new ASLR layout and hasher keys); complete outputs (orders, trades, level-2 history, per-step volumes, clock) must be bit-identical. (b) Every run length 0..=130 (thorough 300, plus neighbours of 256..2048): library runner in a fresh process with the progress bar off and on must equal the hand-written update/step loop. (c) A finite seed x steps x tick x step-size grid is crossed with seven drivers per point (runner twice, three child processes off/on/off, recording generator, play-back of the recorded words); all digests agree, play-back consumes exactly the recorded words, distinct seeds give distinct outputs.",
+   note="Bounded: deviation bound d (1 quick / 2 thorough) over N (16 / 12) scripted draws per round; seeds in part (c) are a finite list (0..1 quick, 0..7 thorough) - that part alone would be 'exploration'. This check is also the uncontrolled-nondeterminism gate the other checks rely on."),
  "C18": dict(cat="model_checking", engine="pytrace + py/driver.py", ref="§3 C18",
    tech="exhaustive bounded-depth enumeration of Python call sequences (OrderBook and StepEnv, incl. off-grid prices and out-of-range integers) generated by the Rust side with expected values from the Rust crates; every trace replayed on the freshly built extension under CPython; snapshot exchange both ways",
    text="Every call sequence to the stated depth over the Python API (place limit/market on- and off-grid, cancel, modify, set_time, toggles, step, out-of-range integers) is executed on the real compiled extension under CPython 3.11; the return value or exception of the last call and every getter afterwards must equal what the Rust core gives for the same sequence (sides True = bid, statuses 0..4); failing calls must leave the object unchanged; StepEnv traces are replayed twice (determinism in the seed); snapshots of all shallow states are exchanged Python->Rust and Rust->Python.",
